@@ -206,6 +206,11 @@ impl Interp {
                 let (Some(a), Some(k), Some(per), Some(seed)) = (kv(t, "apps").and_then(|x| x.parse().ok()), kv(t, "targets").and_then(|x| x.parse().ok()), kv(t, "per").and_then(|x| x.parse().ok()), kv(t, "seed").and_then(|x| x.parse().ok())) else { return "bad-op".into() };
                 w.udp_multi(a, k, per, seed)
             }
+            ["e2e.udpbind", name, ..] => {
+                let Some(Obj::World(w)) = self.objs.get(*name) else { return "bad-op".into() };
+                let Some(n) = kv(t, "n").and_then(|x| x.parse().ok()) else { return "bad-op".into() };
+                w.udp_bind_many(n)
+            }
             ["e2e.udpowner", name] => {
                 let Some(Obj::World(w)) = self.objs.get(*name) else { return "bad-op".into() };
                 w.udp_owner()
